@@ -62,7 +62,7 @@ FaultsFew(w) == {{}} \cup {{<<1, k>>} : k \in {2, 6, 7, 13}}
 FaultsTwo(w) == FaultsOne(w) \cup {{p, q} : p, q \in Positions(w)}
 \* export: a fault at the outcome, at startTest, at stopTest of thread 1's first test, or at a run-level call
 FaultsX(w) == {{}, {<<1, 1>>}, {<<1, 2>>}, {<<2, 1>>}} \cup {{<<1, k>>} : k \in 5..7}
-FaultsX2(w) == {{}, {<<1, 4>>}, {<<2, 1>>}}
+FaultsX2(w) == {{}, {<<1, 4>>}}
 
 MCInit == \E w \in Works : \E fs \in FaultChoices(w) : InitWith(w, fs)
 Spec == MCInit /\ [][Next]_vars
